@@ -96,10 +96,9 @@ def handle (toks : List String) : String :=
         let a : Args := { yt, yp, yb, ytr, sp, ix, hw, mo, sym, sqrt, thr, l, r, rlf }
         if via == "f" then showRes (call EPS metric a)
         else if via == "c" then
-          -- the class is called with two arguments; the function it wraps is called with the same options
-          -- (and defaults for everything the class does not carry)
-          let a' : Args := { a with hw := none, mo := .uniform }
-          s!"cls={showRes (classCall EPS metric { sym, sqrt, sp, thr, l, r, rlf } yt yp)} fn={showRes (call EPS metric a')}"
+          -- Cls(**options)(y_true, y_pred, **kwargs) versus the function called with the same options
+          let kw : Kw := { yb, ytr, ix, hw, mo }
+          s!"cls={showRes (classCall EPS metric { sym, sqrt, sp, thr, l, r, rlf } yt yp kw)} fn={showRes (call EPS metric a)}"
         else "bad-op"
       | _, _, _, _, _, _, _ => "bad-op"
     | _, _, _, _, _, _, _, _ => "bad-op"
